@@ -294,8 +294,20 @@ u_session(uint64_t idx, void *arg)
                 size_t rawn, wn;
                 gen_req(&rg, &H, &nq, (uint16_t)vh_rand(&rg));
                 wn = wire_of(&nq, H.serial, wire, raw, &rawn);
-                unsigned kind = (unsigned)vh_below(&rg, 6);
-                if (kind == 0 && rawn > 0) {
+                unsigned kind = (unsigned)vh_below(&rg, 7);
+                int never_execute = 0;
+                if (kind == 6) {
+                    /* a write request that announces far more words than it carries (2^31, 2^30, 2^16 ... more: sums
+                     * and products that wrap in 32 bits land on the true count again): this one is judged - it must
+                     * not reach the backend and must not be acknowledged */
+                    static const uint32_t far[] = { 0x80000000u, 0x40000000u, 0xc0000000u, 0x00010000u, 0xffff0000u, 0x7fffffffu };
+                    nq.kind = RT_WRITE_REQ;
+                    nq.w16 = H.mem16;
+                    nq.plen = (size_t)vh_below(&rg, 6) * (H.mem16 ? 2u : 1u);
+                    nq.bsize = (uint32_t)(nq.plen / (H.mem16 ? 2u : 1u)) + far[vh_below(&rg, 6)];
+                    wn = wire_of(&nq, H.serial, wire, raw, &rawn);
+                    never_execute = 1;
+                } else if (kind == 0 && rawn > 0) {
                     raw[vh_below(&rg, rawn)] ^= (unsigned char)(1u << vh_below(&rg, 8)); /* one flipped bit */
                     wn = rp_wire(H.serial, raw, rawn, wire);
                 } else if (kind == 1) {
@@ -324,6 +336,19 @@ u_session(uint64_t idx, void *arg)
                 regp_process(&H.p, &nmf);
                 regp_free(&H.p, nmf.frame);
                 H.fail_alloc_at = -1;
+                if (never_execute) {
+                    int acked = 0, nfr = rp_unframe(H.serial, H.out, H.out_n, &SP);
+                    for (int i = 0; i < nfr && i < 4; i++) {
+                        struct rframe rr;
+                        if (rp_decode_raw(SP.raw[i], SP.len[i], &rr) == 0 && rr.type == RT_WRITE_RESP && rr.meta == 0)
+                            acked = 1;
+                    }
+                    if (H.ncalls != 0 || acked)
+                        vh_fail("implausible-write-executed", "workload=noise", "session %" PRIu64 ".%d: write request announcing %u words with %zu payload "
+                                "octets (%s): %d backend calls (n=%zu)%s", idx, s, nq.bsize, nq.plen, vh_hex(raw, rawn > 24 ? 24 : rawn), H.ncalls,
+                                H.ncalls ? H.call[0].n : 0, acked ? ", acknowledged" : "");
+                    VH_COUNT("write request announcing far more words than it carries");
+                }
                 if (rp_live_blocks(&H) != 0 || H.bad_free) {
                     vh_fail("block-ledger", "workload=noise", "session %" PRIu64 ".%d: %d blocks live, bad free=%d after a "
                             "noise frame of kind %u", idx, s, rp_live_blocks(&H), H.bad_free, kind);
@@ -802,6 +827,7 @@ harness_run(void)
     vh_require("non-request frame: no access, no reply");
     vh_require("request with the wrong word size");
     vh_require("noise frame between requests of a session");
+    vh_require("write request announcing far more words than it carries");
     vh_require("session on an allocator with an odd block size");
     vh_require("request served by a second instance in between");
     vh_require("read with the wrong word size and a block no answer could carry");
